@@ -3,17 +3,20 @@
   representation for every finite normal value, and byte-order helpers are exact involutions".
   Property theorems only (model: SfModel/Ieee.lean, helpers: SfProofs/Ieee.lean).
 
-  * readers  : every normal pattern is read back as itself (`ieee_read_native_*`); what the C computes for the other
-               classes is stated exactly: ±0 ↦ +0, binary32 subnormals ↦ 1.T (a value in [1,2)), binary64 subnormals
-               ↦ 2^-1023·1.T rounded, Inf ↦ Inf, NaN ↦ Inf of the NaN's sign.
-  * writers  : the full statement `ieee_write_*_full` is FALSE of the code (`ieee_write_*_fails`: the smallest normal
-               value is written as four / eight zero bytes, known finding KF-C20-ieee-flush); it holds outside the
-               class `flushes` = `fabs (in) < 1e-30` (`ieee_write_*_partial`).
-  * byte order: `ENDSWAP_16/32/64` are involutions and reverse the byte string; `psf_put_be*` / `psf_get_*` are
-               mutually inverse and are the big- and little-endian two's-complement layouts.
+  * readers  : every FINITE pattern (normal, subnormal, ±0) is read back as itself (`ieee_read_finite_*`, C20's
+               `ieee_read_native_*` is the normal case); Inf ↦ Inf, NaN ↦ Inf of the NaN's sign.  The readers before the two
+               `fix:` commits are kept as `…Old` with `read_zero_old_rule`, `f32/f64_read_subnormal_old_rule`.
+  * writers  : every normal value is written as its own bit string (`ieee_write_native_*`, full strength).  The rule before the
+               `fix:` commit (`fabs (in) < 1e-30`) is kept: `ieee_write_*_old_rule_fails`, `ieee_write_old_rule_partial`,
+               `flushes_old_rule_iff_*` (the class in bit terms).  Zeros and subnormals are written as +0 (`ieee_write_tiny`):
+               C01's class `KF.ieeeTiny` (`replace_roundtrip_fails` / `replace_roundtrip_partial`).
+  * buffers  : `replace_write_native_*`, `replace_read_native_*`: the array paths equal the native paths on normal values.
+  * byte order: `ENDSWAP_16/32/64` are involutions and reverse the byte string (Nat and BitVec forms, proved equal);
+               `psf_put_be*` / `psf_get_*` are mutually inverse in both directions for 16, 32 and 64 bits.
 -/
 import SfModel.Ieee
 import SfProofs.Ieee
+import SfProofs.Codec
 namespace Sf.C20Ieee
 open Sf Sf.Float Sf.Ieee
 
@@ -585,5 +588,306 @@ theorem get_le_is_get_be_reversed (a b c d : Nat) :
 example : putBe32 (-2) = [0xFF, 0xFF, 0xFF, 0xFE] ∧ getBe32 [0xFF, 0xFF, 0xFF, 0xFE] = -2 ∧ getLe32 [1, 2, 3, 4] = 0x04030201 ∧
     getBe16 [0x80, 0x01] = -32767 ∧ getBe24 [0x80, 0, 1] = -2147483392 ∧ getLe64 [1, 0, 0, 0, 0, 0, 0, 0x80] = -9223372036854775807 ∧
     putBe64 (-9223372036854775807) = [0x80, 0, 0, 0, 0, 0, 0, 1] := by decide
+
+/-! ### BitVec-level swaps -/
+
+/-- 64-bit swap = byte-string reversal -/
+theorem endswap64_reverses_bytes (x : Nat) (hx : x < 2 ^ 64) : ofBE (leBytes 8 x) = endswap64 x := by
+  have hhi : x / 4294967296 % 4294967296 = x / 4294967296 := Nat.mod_eq_of_lt (by omega)
+  have h1 := (endswap_reverses_bytes (x / 4294967296)).2
+  have h2 := (endswap_reverses_bytes (x % 4294967296)).2
+  unfold endswap64
+  rw [hhi, ← h1, ← h2]
+  simp only [ofBE, leBytes, List.reverse_cons, List.reverse_nil, List.nil_append, List.cons_append, ofLE,
+    Nat.div_div_eq_div_mul, Nat.reduceMul]
+  have a1 : x % 4294967296 / 256 % 256 = x / 256 % 256 := by omega
+  have a2 : x % 4294967296 / 65536 % 256 = x / 65536 % 256 := by omega
+  have a3 : x % 4294967296 / 16777216 % 256 = x / 16777216 % 256 := by omega
+  have a0 : x % 4294967296 % 256 = x % 256 := by omega
+  rw [a0, a1, a2, a3]
+  generalize x % 256 = b0
+  generalize x / 256 % 256 = b1
+  generalize x / 65536 % 256 = b2
+  generalize x / 16777216 % 256 = b3
+  generalize x / 4294967296 % 256 = b4
+  generalize x / 1099511627776 % 256 = b5
+  generalize x / 281474976710656 % 256 = b6
+  generalize x / 72057594037927936 % 256 = b7
+  omega
+
+theorem or_shift_add (a b : Nat) (hb : b < 256) : a <<< 8 ||| b = a * 256 + b := by
+  rw [← Nat.shiftLeft_add_eq_or_of_lt (by simpa using hb), Nat.shiftLeft_eq]
+
+theorem bvswap16_eq (x : BitVec 16) : bvswap16 x = bswap16 x := by
+  apply BitVec.eq_of_toNat_eq
+  have hx := x.isLt
+  have hl : endswap16 x.toNat < 2 ^ 16 := by unfold endswap16; omega
+  simp only [bvswap16, bswap16, BitVec.toNat_append, BitVec.extractLsb'_toNat, BitVec.toNat_ofNat, Nat.mod_eq_of_lt hl]
+  rw [or_shift_add _ _ (Nat.mod_lt _ (by norm_num))]
+  simp only [Nat.shiftRight_eq_div_pow, endswap16]
+  omega
+
+theorem bvswap32_eq (x : BitVec 32) : bvswap32 x = bswap32 x := by
+  apply BitVec.eq_of_toNat_eq
+  have hx := x.isLt
+  simp only [bvswap32, bswap32, BitVec.toNat_append, BitVec.extractLsb'_toNat, BitVec.toNat_ofNat, Nat.mod_eq_of_lt (endswap32_lt _)]
+  rw [or_shift_add _ _ (Nat.mod_lt _ (by norm_num)), or_shift_add _ _ (Nat.mod_lt _ (by norm_num)), or_shift_add _ _ (Nat.mod_lt _ (by norm_num))]
+  simp only [Nat.shiftRight_eq_div_pow, endswap32, Nat.reducePow, Nat.div_one]
+  omega
+theorem endswap64_lt (x : Nat) : endswap64 x < 2 ^ 64 := by
+  unfold endswap64
+  have a := endswap32_lt (x / 4294967296 % 4294967296)
+  have b := endswap32_lt (x % 4294967296)
+  omega
+
+theorem bvswap64_eq (x : BitVec 64) : bvswap64 x = bswap64 x := by
+  apply BitVec.eq_of_toNat_eq
+  have hx := x.isLt
+  simp only [bvswap64, bswap64, BitVec.toNat_append, BitVec.extractLsb'_toNat, BitVec.toNat_ofNat, Nat.mod_eq_of_lt (endswap64_lt _)]
+  rw [or_shift_add _ _ (Nat.mod_lt _ (by norm_num)), or_shift_add _ _ (Nat.mod_lt _ (by norm_num)), or_shift_add _ _ (Nat.mod_lt _ (by norm_num)),
+    or_shift_add _ _ (Nat.mod_lt _ (by norm_num)), or_shift_add _ _ (Nat.mod_lt _ (by norm_num)), or_shift_add _ _ (Nat.mod_lt _ (by norm_num)),
+    or_shift_add _ _ (Nat.mod_lt _ (by norm_num))]
+  simp only [Nat.shiftRight_eq_div_pow, Nat.reducePow, Nat.div_one]
+  generalize x.toNat = n at *
+  have h := endswap64_reverses_bytes n hx
+  rw [← h]
+  simp only [ofBE, leBytes, List.reverse_cons, List.reverse_nil, List.nil_append, List.cons_append, ofLE,
+    Nat.div_div_eq_div_mul, Nat.reduceMul]
+  omega
+
+/-- the BitVec-level swaps (`bvswap*`: the byte fields re-assembled in reverse order with `extractLsb'` / `++`) are exact
+    involutions on every bit pattern -/
+theorem bvswap_involutive :
+    (∀ x : BitVec 16, bvswap16 (bvswap16 x) = x) ∧ (∀ x : BitVec 32, bvswap32 (bvswap32 x) = x) ∧
+    (∀ x : BitVec 64, bvswap64 (bvswap64 x) = x) := by
+  obtain ⟨i16, i32, i64⟩ := endswap_involutive
+  refine ⟨fun x => ?_, fun x => ?_, fun x => ?_⟩
+  · rw [bvswap16_eq, bvswap16_eq]; exact i16 x
+  · rw [bvswap32_eq, bvswap32_eq]; exact i32 x
+  · rw [bvswap64_eq, bvswap64_eq]; exact i64 x
+
+example : bvswap16 0x1234#16 = 0x3412#16 ∧ bvswap32 0x12345678#32 = 0x78563412#32 ∧
+    bvswap64 0x0102030405060708#64 = 0x0807060504030201#64 := by decide
+
+/-! ### put after get, 64-bit round trips -/
+
+theorem byteAt_eq64 (v : Int) : byteAt v 32 = (v / 4294967296 % 256).toNat ∧ byteAt v 40 = (v / 1099511627776 % 256).toNat ∧
+    byteAt v 48 = (v / 281474976710656 % 256).toNat ∧ byteAt v 56 = (v / 72057594037927936 % 256).toNat := by
+  simp [byteAt, wrapU, asr]
+theorem wrapS64_eq (x : Int) : wrapS 64 x = if x % 18446744073709551616 < 9223372036854775808 then x % 18446744073709551616
+    else x % 18446744073709551616 - 18446744073709551616 := by
+  simp [wrapS]
+
+/-- the eight bytes `psf_put_be64` stores are the base-256 digits of the unsigned residue -/
+theorem byteAt_digits64 (v : Int) (w : Nat) (hw : (w : Int) = v % 18446744073709551616) :
+    byteAt v 0 = w % 256 ∧ byteAt v 8 = w / 256 % 256 ∧ byteAt v 16 = w / 65536 % 256 ∧ byteAt v 24 = w / 16777216 % 256 ∧
+    byteAt v 32 = w / 4294967296 % 256 ∧ byteAt v 40 = w / 1099511627776 % 256 ∧
+    byteAt v 48 = w / 281474976710656 % 256 ∧ byteAt v 56 = w / 72057594037927936 % 256 := by
+  obtain ⟨e0, e8, e16, e24⟩ := byteAt_eq v
+  obtain ⟨e32, e40, e48, e56⟩ := byteAt_eq64 v
+  rw [e0, e8, e16, e24, e32, e40, e48, e56]
+  refine ⟨?_, ?_, ?_, ?_, ?_, ?_, ?_, ?_⟩ <;> (show ((_ : Nat) = _); omega)
+
+theorem digits64_sum (w : Nat) (hw : w < 2 ^ 64) :
+    ((w / 72057594037927936 % 256 % 256) * 16777216 + (w / 281474976710656 % 256 % 256) * 65536 + (w / 1099511627776 % 256 % 256) * 256
+        + w / 4294967296 % 256 % 256) * 4294967296
+      + ((w / 16777216 % 256 % 256) * 16777216 + (w / 65536 % 256 % 256) * 65536 + (w / 256 % 256 % 256) * 256 + w % 256 % 256) = w := by
+  have d1 : w / 65536 = w / 256 / 256 := by rw [Nat.div_div_eq_div_mul]
+  have d2 : w / 16777216 = w / 256 / 256 / 256 := by rw [Nat.div_div_eq_div_mul, Nat.div_div_eq_div_mul]
+  have d3 : w / 4294967296 = w / 256 / 256 / 256 / 256 := by simp [Nat.div_div_eq_div_mul]
+  have d4 : w / 1099511627776 = w / 256 / 256 / 256 / 256 / 256 := by simp [Nat.div_div_eq_div_mul]
+  have d5 : w / 281474976710656 = w / 256 / 256 / 256 / 256 / 256 / 256 := by simp [Nat.div_div_eq_div_mul]
+  have d6 : w / 72057594037927936 = w / 256 / 256 / 256 / 256 / 256 / 256 / 256 := by simp [Nat.div_div_eq_div_mul]
+  rw [d1, d2, d3, d4, d5, d6]
+  have h7 : w / 256 / 256 / 256 / 256 / 256 / 256 / 256 < 256 := by rw [← d6]; omega
+  clear d1 d2 d3 d4 d5 d6
+  generalize h1 : w / 256 = x1 at *
+  generalize h2 : x1 / 256 = x2 at *
+  generalize h3 : x2 / 256 = x3 at *
+  generalize h4 : x3 / 256 = x4 at *
+  generalize h5 : x4 / 256 = x5 at *
+  generalize h6 : x5 / 256 = x6 at *
+  generalize h7' : x6 / 256 = x7 at *
+  omega
+
+/-- put then get is the identity on the whole `int64_t` range -/
+theorem get_put_be64 (v : Int) (h1 : -9223372036854775808 ≤ v) (h2 : v ≤ 9223372036854775807) : getBe64 (putBe64 v) = v := by
+  obtain ⟨w, hw⟩ : ∃ w : Nat, (w : Int) = v % 18446744073709551616 := ⟨(v % 18446744073709551616).toNat, by omega⟩
+  have hwlt : w < 2 ^ 64 := by omega
+  obtain ⟨b0, b8, b16, b24, b32, b40, b48, b56⟩ := byteAt_digits64 v w hw
+  rw [putBe64, b0, b8, b16, b24, b32, b40, b48, b56]
+  simp only [getBe64]
+  rw [digits64_sum w hwlt, wrapS64_eq]
+  split <;> omega
+
+/-- get then put is the identity on 8-byte strings -/
+theorem put_get_be64 (a b c d e f g h : Nat) (ha : a < 256) (hb : b < 256) (hc : c < 256) (hd : d < 256)
+    (he : e < 256) (hf : f < 256) (hg : g < 256) (hh : h < 256) :
+    putBe64 (getBe64 [a, b, c, d, e, f, g, h]) = [a, b, c, d, e, f, g, h] := by
+  simp only [getBe64, Nat.mod_eq_of_lt ha, Nat.mod_eq_of_lt hb, Nat.mod_eq_of_lt hc, Nat.mod_eq_of_lt hd,
+    Nat.mod_eq_of_lt he, Nat.mod_eq_of_lt hf, Nat.mod_eq_of_lt hg, Nat.mod_eq_of_lt hh]
+  generalize hu : (a * 16777216 + b * 65536 + c * 256 + d) * 4294967296 + (e * 16777216 + f * 65536 + g * 256 + h) = u
+  have hult : u < 2 ^ 64 := by omega
+  have hw : ((u : Nat) : Int) = wrapS 64 (u : Int) % 18446744073709551616 := by rw [wrapS64_eq]; split <;> omega
+  obtain ⟨b0, b8, b16, b24, b32, b40, b48, b56⟩ := byteAt_digits64 (wrapS 64 (u : Int)) u hw
+  rw [putBe64, b0, b8, b16, b24, b32, b40, b48, b56]
+  simp only [List.cons.injEq, and_true]
+  subst hu
+  refine ⟨?_, ?_, ?_, ?_, ?_, ?_, ?_, ?_⟩ <;> (show ((_ : Nat) = _); omega)
+
+/-- … and on 2-byte strings -/
+theorem put_get_be16 (a b : Nat) (ha : a < 256) (hb : b < 256) : putBe16 (getBe16 [a, b]) = [a, b] := by
+  obtain ⟨e0, e8, _, _⟩ := byteAt_eq (getBe16 [a, b])
+  rw [putBe16, e0, e8]
+  simp only [getBe16, Nat.mod_eq_of_lt ha, Nat.mod_eq_of_lt hb, wrapS16_eq, List.cons.injEq, and_true]
+  refine ⟨?_, ?_⟩ <;> (show ((_ : Nat) = _); split <;> split <;> omega)
+
+
+/-- bytes of a wrapped 32-bit value -/
+theorem byteAt_wrapS32 (u : Nat) (hu : u < 2 ^ 32) :
+    byteAt (wrapS 32 u) 24 = u / 16777216 % 256 ∧ byteAt (wrapS 32 u) 16 = u / 65536 % 256 ∧
+    byteAt (wrapS 32 u) 8 = u / 256 % 256 ∧ byteAt (wrapS 32 u) 0 = u % 256 := by
+  obtain ⟨e0, e8, e16, e24⟩ := byteAt_eq (wrapS 32 u)
+  rw [e0, e8, e16, e24, wrapS32_eq]
+  refine ⟨?_, ?_, ?_, ?_⟩ <;> (show ((_ : Nat) = _); split <;> omega)
+
+/-- get then put is the identity on 4-byte strings -/
+theorem put_get_be32 (a b c d : Nat) (ha : a < 256) (hb : b < 256) (hc : c < 256) (hd : d < 256) :
+    putBe32 (getBe32 [a, b, c, d]) = [a, b, c, d] := by
+  have hu : a * 16777216 + b * 65536 + c * 256 + d < 2 ^ 32 := by omega
+  have hg : getBe32 [a, b, c, d] = wrapS 32 ((a * 16777216 + b * 65536 + c * 256 + d : Nat) : Int) := by
+    simp only [getBe32, Nat.mod_eq_of_lt ha, Nat.mod_eq_of_lt hb, Nat.mod_eq_of_lt hc, Nat.mod_eq_of_lt hd]
+    push_cast; rfl
+  obtain ⟨b24, b16, b8, b0⟩ := byteAt_wrapS32 _ hu
+  rw [putBe32, hg, b24, b16, b8, b0]
+  simp only [List.cons.injEq, and_true]
+  refine ⟨?_, ?_, ?_, ?_⟩ <;> (show ((_ : Nat) = _); omega)
+
+
+/-! ## C20 lifted to whole buffers: the `replace_*` array paths equal the native paths on normal values -/
+
+theorem leBytes_ofLE : ∀ (l : List Nat), (∀ b ∈ l, b < 256) → leBytes l.length (ofLE l) = l
+  | [], _ => rfl
+  | b :: bs, h => by
+    have hb : b < 256 := h b (by simp)
+    have ih := leBytes_ofLE bs (fun x hx => h x (by simp [hx]))
+    simp only [List.length_cons, ofLE, leBytes]
+    have e1 : (b + 256 * ofLE bs) % 256 = b := by omega
+    have e2 : (b + 256 * ofLE bs) / 256 = ofLE bs := by omega
+    rw [e1, e2, ih]
+
+/-- the staging-buffer word of a big-endian file: byte-swapping the value gives the reversed byte string -/
+theorem leBytes_endswap32 (x : Nat) : leBytes 4 (endswap32 x) = beBytes 4 x := by
+  rw [← (endswap_reverses_bytes x).2]
+  have hl : ((leBytes 4 x).reverse).length = 4 := by simp [leBytes_length]
+  have := leBytes_ofLE (leBytes 4 x).reverse (fun b hb => leBytes_lt 4 x b (by simpa using hb))
+  rw [hl] at this
+  simpa [ofBE, beBytes] using this
+
+theorem ofLE_bytesLE_f32 (x : Nat) (hx : x < 2 ^ 32) : ofLE (Spec.bytesLE f32 x) = x := by
+  have : f32.width / 8 = 4 := by decide
+  rw [Spec.bytesLE, this, ofLE_leBytes]
+  exact Nat.mod_eq_of_lt (by norm_num; omega)
+
+/-- C20 lifted to whole buffers, write side: for a buffer of normal values `replace_write_f` (f2bf_array + endswap_int_array)
+    produces exactly the bytes of the native path, for both file byte orders -/
+theorem replace_write_native_f32 (fileBE : Bool) (xs : List Nat) (h : ∀ x ∈ xs, x < 2 ^ 32 ∧ Spec.isNormal f32 x = true) :
+    replaceWriteF32 fileBE xs = hostWrite f32 fileBE xs := by
+  unfold replaceWriteF32 hostWrite
+  induction xs with
+  | nil => rfl
+  | cons x xs ih =>
+    obtain ⟨hx, hn⟩ := h x (by simp)
+    simp only [List.flatMap_cons]
+    rw [ih (fun y hy => h y (by simp [hy]))]
+    congr 1
+    rw [(ieee_write_native_f32 x hx hn).2, ofLE_bytesLE_f32 x hx]
+    cases fileBE
+    · simp only [Bool.false_eq_true, if_false]; rfl
+    · simp only [if_true]; rw [leBytes_endswap32]; rfl
+
+/-- … and read side: reading the native bytes of a buffer of normal values through `replace_read_f` returns the buffer -/
+theorem replace_read_native_f32 (fileBE : Bool) (xs : List Nat) (h : ∀ x ∈ xs, x < 2 ^ 32 ∧ Spec.isNormal f32 x = true) :
+    replaceReadF32 fileBE (hostWrite f32 fileBE xs) = xs := by
+  unfold replaceReadF32 hostWrite
+  rw [groups_flatMap 4 (by omega)]
+  · rw [List.map_map]
+    conv => rhs; rw [← List.map_id xs]
+    apply List.map_congr_left
+    intro x hxm
+    obtain ⟨hx, hn⟩ := h x hxm
+    simp only [Function.comp, id]
+    have hw : f32.width / 8 = 4 := by decide
+    cases fileBE
+    · simp only [Bool.false_eq_true, if_false]
+      rw [ofLE_bytesLE_f32 x hx]
+      exact (ieee_read_native_f32 x hx hn).2
+    · simp only [if_true]
+      have e : ofLE (Spec.bytesBE f32 x) = endswap32 x := by
+        rw [Spec.bytesBE, hw, ← (endswap_reverses_bytes x).2]; rfl
+      rw [e, endswap32_involutive x hx]
+      exact (ieee_read_native_f32 x hx hn).2
+  · intro v _
+    have hw : f32.width / 8 = 4 := by decide
+    cases fileBE <;> simp [Spec.bytesBE, Spec.bytesLE, hw, leBytes_length, beBytes_length]
+
+
+theorem leBytes_endswap64 (x : Nat) (hx : x < 2 ^ 64) : leBytes 8 (endswap64 x) = beBytes 8 x := by
+  rw [← endswap64_reverses_bytes x hx]
+  have hl : ((leBytes 8 x).reverse).length = 8 := by simp [leBytes_length]
+  have := leBytes_ofLE (leBytes 8 x).reverse (fun b hb => leBytes_lt 8 x b (by simpa using hb))
+  rw [hl] at this
+  simpa [ofBE, beBytes] using this
+
+theorem ofLE_bytesLE_f64 (x : Nat) (hx : x < 2 ^ 64) : ofLE (Spec.bytesLE f64 x) = x := by
+  have : f64.width / 8 = 8 := by decide
+  rw [Spec.bytesLE, this, ofLE_leBytes]
+  exact Nat.mod_eq_of_lt (by norm_num; omega)
+
+/-- the same for `replace_write_d` / `replace_read_d` (double64.c) -/
+theorem replace_write_native_f64 (fileBE : Bool) (xs : List Nat) (h : ∀ x ∈ xs, x < 2 ^ 64 ∧ Spec.isNormal f64 x = true) :
+    replaceWriteF64 fileBE xs = hostWrite f64 fileBE xs := by
+  unfold replaceWriteF64 hostWrite
+  induction xs with
+  | nil => rfl
+  | cons x xs ih =>
+    obtain ⟨hx, hn⟩ := h x (by simp)
+    simp only [List.flatMap_cons]
+    rw [ih (fun y hy => h y (by simp [hy]))]
+    congr 1
+    rw [(ieee_write_native_f64 x hx hn).2, ofLE_bytesLE_f64 x hx]
+    cases fileBE
+    · simp only [Bool.false_eq_true, if_false]; rfl
+    · simp only [if_true]; rw [leBytes_endswap64 x hx]; rfl
+
+theorem replace_read_native_f64 (fileBE : Bool) (xs : List Nat) (h : ∀ x ∈ xs, x < 2 ^ 64 ∧ Spec.isNormal f64 x = true) :
+    replaceReadF64 fileBE (hostWrite f64 fileBE xs) = xs := by
+  unfold replaceReadF64 hostWrite
+  rw [groups_flatMap 8 (by omega)]
+  · rw [List.map_map]
+    conv => rhs; rw [← List.map_id xs]
+    apply List.map_congr_left
+    intro x hxm
+    obtain ⟨hx, hn⟩ := h x hxm
+    simp only [Function.comp, id]
+    have hw : f64.width / 8 = 8 := by decide
+    cases fileBE
+    · simp only [Bool.false_eq_true, if_false]
+      rw [ofLE_bytesLE_f64 x hx]
+      exact (ieee_read_native_f64 x hx hn).2
+    · simp only [if_true]
+      have e : ofLE (Spec.bytesBE f64 x) = endswap64 x := by
+        rw [Spec.bytesBE, hw, ← endswap64_reverses_bytes x hx]; rfl
+      rw [e, endswap64_involutive x hx]
+      exact (ieee_read_native_f64 x hx hn).2
+  · intro v _
+    have hw : f64.width / 8 = 8 := by decide
+    cases fileBE <;> simp [Spec.bytesBE, Spec.bytesLE, hw, leBytes_length, beBytes_length]
+
+/-- non-vacuity: a buffer of ordinary values, both file byte orders -/
+example : replaceWriteF32 true [0x3F800000, 0xC2F6E979] = [0x3F, 0x80, 0, 0, 0xC2, 0xF6, 0xE9, 0x79] ∧
+    replaceReadF32 false [0, 0, 0x80, 0x3F, 0x79, 0xE9, 0xF6, 0xC2] = [0x3F800000, 0xC2F6E979] ∧
+    hostWrite f32 false [0x3F800000] = [0, 0, 0x80, 0x3F] ∧
+    replaceReadF64 true [0x40, 0x09, 0x21, 0xFB, 0x54, 0x44, 0x2D, 0x18] = [0x400921FB54442D18] := by decide +kernel
 
 end Sf.C20Ieee
